@@ -37,7 +37,7 @@ def main():
             na.append({"property_id": pid, "reason": "check not yet built in this commit (planned, see DESIGN.md §5/§10); not claimed until it runs"})
     m = {
         "version": 1,
-        "setup_cmd": "cd lean && lake build CohdlVerif cohdl_model",
+        "setup_cmd": "cd lean && lake build CohdlVerif " + " ".join(f"model_c{i:02d}" for i in range(1, 21)),
         "hooks": {
             "guard": "COHDL_VERIF",
             "enable": "no hook is needed so far: IR (std.VhdlCompiler.to_ir), module globals and emitted text are reachable from outside; checks export COHDL_VERIF=1 anyway",
